@@ -58,3 +58,166 @@ def run(prog, E=None, prefix="mpq_", rule="R-OWN"):
         from ..core import AnalysisBroken
         raise AnalysisBroken("anchor function %sQSwrite_basis not found" % prefix)
     return res
+
+
+def run_loadkeep(prog, prefix="mpq_", rule="R-LOADKEEP", floor=2):
+    """the problem's basis is emptied only when its replacement is already known to be good.  In every public function that empties or
+    releases p->basis (a call of ILLlp_basis_free on it, a release of the record itself), no call of a routine that can fail for another
+    reason than allocation (shell.may_fail: readers, validators) is reachable from the emptying event - the reading and checking come
+    first, the swap last.  Otherwise a rejected file or array costs the problem the basis it had."""
+    from ..core import walk, strip, callee, show, dominators
+    from .shell import may_fail
+    import collections
+    res = RuleResult(rule, "in a public function that empties p->basis, every call that can fail for another reason than allocation precedes the "
+                           "emptying: none is reachable from it")
+    n = 0
+    for f, pidx in api_functions(prog, prefix):
+        if f.live is None:
+            continue
+        pname = f.params[pidx][0]
+        empties = []
+        for b, i, c in f.calls():
+            nm = callee(c) or ""
+            if (nm.endswith("ILLlp_basis_free") or nm in ("free", "EGfree", "ILLutil_freerus")) and c[3] and show(c[3][0]) == "%s->basis" % pname:
+                empties.append((b["id"], i, c))
+        if not empties:
+            continue
+        succ = {bid: [s for s in prog.live_succs(f, f.blocks[bid]) if s is not None] for bid in f.live}
+        fails = []
+        for b, i, c in f.calls():
+            g = prog.resolve(f, c[1]) if c[1] else None
+            if g is None or g.live is None or "int" not in (g.ret or ""):
+                continue
+            nm = g.name
+            if nm.endswith(("ILLlp_basis_free", "ILLlp_basis_init", "ILLlp_basis_alloc", "check_qsdata_pointer")):
+                continue
+            if may_fail(prog, g):
+                # the callee fails only through a validator on one of its parameters, and the same validator has already accepted the same
+                # argument on a dominating path of this function (QSload_basis checks the record, then converts it - the conversion checks again)
+                why = prog.__dict__.get("_shell_why", {}).get(g.key)
+                if why and all(isinstance(w, tuple) and w and w[0] == "call" for w in why):
+                    dom = dominators(prog, f)[0]
+                    ok_all = True
+                    for (_, hname, params) in why:
+                        texts = [show(c[3][k]) for k in params if k < len(c[3])]
+                        found = False
+                        for b2, i2, c2 in f.calls():
+                            if (callee(c2) or "") == hname and [show(a) for a in c2[3]] == texts and \
+                                    ((b2["id"] in dom.get(b["id"], ()) and b2["id"] != b["id"]) or (b2["id"] == b["id"] and i2 < i)):
+                                found = True
+                        ok_all = ok_all and found
+                    if ok_all:
+                        continue
+                fails.append((b["id"], i, c, g))
+        for (eb, ei, ec) in empties:
+            n += 1
+            res.obligations += 1
+            res.nontrivial += 1
+            reach, wl = set(), list(succ.get(eb, ()))
+            while wl:
+                x = wl.pop()
+                if x not in reach:
+                    reach.add(x)
+                    wl.extend(succ.get(x, ()))
+            bad = [(fb, fi, fc, g) for (fb, fi, fc, g) in fails if fb in reach or (fb == eb and fi > ei)]
+            if bad:
+                fb, fi, fc, g = bad[0]
+                res.violations.append(Violation(rule, "%s|p->basis emptied before %s" % (base(f.name), g.name.replace(prefix, "")), f.name, short_loc(ec[4]),
+                                                "%s empties the problem's basis, and %s - which can fail for another reason than allocation - is called afterwards (%s): "
+                                                "when it fails the call is rejected and the basis the problem had is gone" % (show(ec)[:60], g.name, short_loc(fc[4]))))
+            else:
+                res.sample({"site": "%s %s: %s" % (short_loc(ec[4]), f.name, show(ec)[:50]), "verdict": "no fallible call behind the emptying"}, limit=8)
+    res.counts["emptying_events_of_the_basis_in_public_functions"] = n
+    res.floor("emptying events of p->basis in public functions", n, floor)
+    return res
+
+
+def run_basiscard(prog, E=None, prefix="mpq_", rule="R-BASISCARD", floor=3):
+    """sibling agreement of the basis loaders: every public function that installs status arrays coming from outside (a caller's record
+    or arrays, a basis file) into p->basis runs the cardinality check first.  The checker is found structurally: a function that
+    increments a local under tests of array elements against a constant and rejects (stores a non-zero constant into the error code)
+    when that local differs from one of its parameters - basis_arrays_check counts the BASIC entries and compares with nrows.  The
+    loaders are the public functions whose effects write the cstat / rstat of p->basis and that take the data from a parameter other
+    than the problem (status arrays, a QSbasis record, a file name).  Each must reach a checker on every ... - here: have a call to a
+    checker (directly or through one callee level) that dominates its success return."""
+    from ..core import walk, strip, is_var, callee, const_of, show, dominators
+    from ..cond import atoms
+    E = E or Effects(prog)
+    res = RuleResult(rule, "every public function that installs external status arrays into p->basis calls the cardinality checker on a "
+                           "position that dominates its success return")
+    funcs = [f for f in prog.funcs.values() if f.live is not None and f.unit.endswith("qsopt_mpq.c")]
+    checkers = set()
+    for f in funcs:
+        counters = set()
+        for b, i, e in f.elements():
+            if e[0] == "U" and is_var(e[1][2], kind="l") and "++" in e[1][1]:
+                counters.add(strip(e[1][2])[2])
+        if not counters:
+            continue
+        pnames = {p_[0] for p_ in f.params}
+        for bid in f.live:
+            c = f.blocks[bid].get("c")
+            if c is None:
+                continue
+            for nd in walk(c):
+                if isinstance(nd, list) and nd and nd[0] == "b" and nd[1] in ("!=", "=="):
+                    a, b_ = strip(nd[2]), strip(nd[3])
+                    for x, y in ((a, b_), (b_, a)):
+                        if is_var(x, kind="l") and x[2] in counters and is_var(y) and y[2] in pnames:
+                            checkers.add(f.key)
+    res.counts["cardinality_checkers"] = sorted(prog.funcs[k].name for k in checkers)
+    n = 0
+    for f, pidx in api_functions(prog, prefix):
+        if f.live is None:
+            continue
+        w = {fp[1].split("::")[1] for (k, fp) in E.W[f.key] if k == pidx and len(fp) >= 2 and fp[0].endswith("qsdata::basis")
+             and fp[1].split("::")[0].endswith("ILLlp_basis") and fp[1].split("::")[1] in ("cstat", "rstat")}
+        if not w:
+            continue
+        # external data: a char * / QSbasis * / const char * parameter besides the problem
+        ext = [p_[0] for k, p_ in enumerate(f.params) if k != pidx and p_[2].replace("const ", "").strip() in ("char *", "struct qsbasis *")]
+        if not ext:
+            continue
+        # a loader replaces the basis: it empties the old record (the functions that extend or repack the basis do not)
+        if not any((callee(c) or "").endswith("ILLlp_basis_free") and c[3] and show(c[3][0]) == "%s->basis" % f.params[pidx][0] for b, i, c in f.calls()):
+            continue
+        n += 1
+        res.obligations += 1
+        res.nontrivial += 1
+        dom, succ = dominators(prog, f)
+        # success returns: R elements; the checker call must dominate the exit block's predecessors that return 0 - approximated by
+        # dominating the block that stores into p->factorok / the last block before CLEANUP on the success path: we require domination of
+        # every direct write of the basis arrays or of the call that fills them
+        fills = []
+        for ci in E.callinfo.get(f.key, ()):
+            (g, name, loc, args, bid, idx, c) = ci
+            if g is None:
+                continue
+            if any(j == pidx and len(fp) >= 2 and fp[0].endswith("qsdata::basis") and fp[1].split("::")[1] in ("cstat", "rstat") for (j, fp) in E.call_writes(f, ci)):
+                if not (name or "").endswith(("ILLlp_basis_free", "ILLlp_basis_init")):
+                    fills.append((bid, idx, loc, name))
+        for (j, fp, loc, how, bid, idx) in E.direct_writes(f):
+            if j == pidx and fp and fp[0].endswith("qsdata::basis") and (len(fp) == 1 or fp[1].split("::")[1] in ("cstat", "rstat")):
+                e = f.blocks[bid]["e"][idx]
+                if e[0] == "A" and const_of(e[1][3]) is None:
+                    fills.append((bid, idx, loc, "store"))
+        chk = []
+        for b, i, c in f.calls():
+            g = prog.resolve(f, c[1]) if c[1] else None
+            if g is None:
+                continue
+            if g.key in checkers or any((prog.resolve(g, c2[1]) if c2[1] else None) is not None and prog.resolve(g, c2[1]).key in checkers for b2, i2, c2 in g.calls()):
+                chk.append((b["id"], i))
+        bad = [x for x in fills if not any((cb in dom.get(x[0], ()) and cb != x[0]) or (cb == x[0] and ci_ < x[1]) for (cb, ci_) in chk)]
+        # a wrapper that delegates the whole job to another loader is judged there
+        delegates = [x for x in bad if any(base(x[3] or "") == base(g2.name) for g2, _ in api_functions(prog, prefix))]
+        bad = [x for x in bad if x not in delegates]
+        if bad:
+            res.violations.append(Violation(rule, "%s|basis installed without the cardinality check" % base(f.name), f.name, short_loc(bad[0][2]),
+                                            "%s fills p->basis from %s (%s) and no call of a cardinality checker (%s) dominates that: a record with another number "
+                                            "of basic entries than rows becomes the problem's basis" % (f.name, ", ".join(ext), bad[0][3], ", ".join(res.counts["cardinality_checkers"]))))
+        else:
+            res.sample({"function": f.name, "external": ext, "verdict": "checker dominates every fill" if fills and not delegates else "delegates to a loader that is judged itself"}, limit=8)
+    res.counts["basis_loaders"] = n
+    res.floor("public functions that install external status arrays", n, floor)
+    return res
